@@ -357,4 +357,232 @@ theorem collectStats_ok (s : State) (h : StateOK s) (last : Bool) : OutOK (colle
       all_goals first | exact clean_of_cleanB (by decide) | exact decNat_clean _
   · exact OutOK.ite (OutOK.single letter_s_wf) OutOK.nil
 
+/-! ### the dispatcher -/
+
+theorem arg_clean {l : Line} (hargs : ∀ a ∈ l.argv, Clean a) (i : Nat) : Clean ((arg l i).getD []) ∧
+    ∀ x, arg l i = some x → Clean x := by
+  unfold arg
+  cases h : l.argv[i]? with
+  | none => exact ⟨Clean.nil, by intro x hx; cases hx⟩
+  | some a =>
+    have := hargs a (List.mem_of_getElem? h)
+    exact ⟨this, by intro x hx; simp only [Option.some.injEq] at hx; subst hx; exact this⟩
+
+theorem garbage_step (s : State) (h : StateOK s) (c : String)
+    (hc : cleanB (b ("ircd sent garbage: -1 " ++ c ++ " ...")) = true) : StepOK s (garbage s c) := by
+  unfold garbage
+  exact StepOK.pure h _ (OutOK.single (sendOpers_wf _ (clean_of_cleanB hc)))
+
+theorem onReq_step (s : State) (h : StateOK s) (req? : Option Req) (hreq : ∀ r, req? = some r → r ∈ s.reqs)
+    (c : String) (hc : cleanB (b ("ircd sent garbage: -1 " ++ c ++ " ...")) = true) (ev : Ev) (hev : EvOK ev) :
+    StepOK s (onReq s req? c ev) := by
+  unfold onReq
+  cases req? with
+  | none => exact garbage_step s h c hc
+  | some r =>
+    exact withReq_step s h r (hreq r rfl) _ (fun c' hc' => reqEvent_good _ _ _ ev (ctx0_ok h (hreq r rfl)) hev hc')
+
+theorem dropReq_step (s : State) (h : StateOK s) (req? : Option Req) (hreq : ∀ r, req? = some r → r ∈ s.reqs)
+    (c : String) (hc : cleanB (b ("ircd sent garbage: -1 " ++ c ++ " ...")) = true) : StepOK s (dropReq s req? c) := by
+  unfold dropReq
+  cases req? with
+  | none => exact garbage_step s h c hc
+  | some r =>
+    refine withReq_step s h r (hreq r rfl) _ (fun c' hc' => ?_)
+    simp only [pure, Except.pure, Except.ok.injEq] at hc'
+    subst hc'
+    exact ⟨(ctx0_ok h (hreq r rfl)).finish, Wrote.of_eq rfl rfl⟩
+
+theorem onReply_step (s : State) (h : StateOK s) (l : Line) (hargs : ∀ a ∈ l.argv, Clean a) (isX : Bool) :
+    StepOK s (onReply s l isX) := by
+  unfold onReply
+  split
+  · exact StepOK.pure h _ OutOK.nil
+  · split
+    · exact StepOK.pure h _ OutOK.nil
+    · rename_i r hv
+      have hr := validateRequest_mem hv
+      refine withReq_step s h r hr _ (fun c' hc' => xqReply_good _ _ _ _ _ (ctx0_ok h hr) ?_ hc')
+      intro x hx
+      split at hx
+      · exact (arg_clean hargs 3).2 x hx
+      · cases hx
+
+theorem onInfo_step (s : State) (h : StateOK s) (l : Line) : StepOK s (onInfo s l) := by
+  unfold onInfo
+  split
+  · exact StepOK.pure h _ OutOK.nil
+  · dsimp only
+    split
+    · exact StepOK.pure h _ (collectConfig_ok s h)
+    · split
+      · exact StepOK.pure h _ (collectStats_ok s h false)
+      · split
+        · exact StepOK.pure h _ (collectStats_ok s h true)
+        · exact StepOK.pure h _ OutOK.nil
+
+theorem arg1_nosp {l : Line} (hinit : ∀ a ∈ l.argv.dropLast, NoSp a) (h3 : ¬ l.argv.length < 3) : NoSp ((arg l 1).getD []) := by
+  unfold arg
+  cases h : l.argv[1]? with
+  | none => intro c hc; cases hc
+  | some a =>
+    simp only [Option.getD_some]
+    apply hinit a
+    rw [List.dropLast_eq_take]
+    apply List.mem_of_getElem? (i := 1)
+    rw [List.getElem?_take]
+    have : 1 < l.argv.length - 1 := by omega
+    rw [if_pos this]; exact h
+
+/-- the dispatcher is one of these terms (an unfolding that keeps the arguments visible) -/
+theorem dispatch_cases (s : State) (l : Line) (cmd : UInt8) (req? : Option Req) (P : M (State × List Bytes) → Prop)
+    (hnil : P (pure (s, [])))
+    (hnew : P (newClient s l.id ((arg l 1).getD []) ((arg l 2).getD [])))
+    (hD : P (dropReq s req? "D"))
+    (hN : P (onReq s req? "N" (.hostname (if req?.isSome then some ((arg l 1).getD []) else arg l 1))))
+    (hd : P (onReq s req? "d" .noHostname))
+    (hP : P (onReq s req? "P" (.password (if req?.isSome then some ((arg l 1).getD []) else arg l 1))))
+    (hU0 : req? = none → P (garbage s "U"))
+    (hU1 : P (pure (s, [sendOpers (b "ircd sent garbage: <id> U without realname")])))
+    (hU2 : ∀ r, req? = some r → ¬ l.argv.length < 3 →
+      P (withReq s r fun ctx => reqEvent s.static ctx (.userInfo ((arg l 1).getD []) ((arg l 2).getD []))))
+    (hu : P (onReq s req? "u" (.ident (arg l 1))))
+    (hn : P (onReq s req? "n" (.nick (if req?.isSome then some ((arg l 1).getD []) else arg l 1))))
+    (hH : P (onReq s req? "H" .hurry))
+    (hT : P (dropReq s req? "T"))
+    (hX : ∀ isX, P (onReply s l isX))
+    (hI : P (onInfo s l)) : P (dispatch s l cmd req?) := by
+  unfold dispatch
+  dsimp only
+  by_cases c1 : (cmd == 67) = true
+  · rw [if_pos c1]
+    by_cases a : l.argv.length < 5
+    · rw [if_pos a]; exact hnil
+    · rw [if_neg a]; exact hnew
+  rw [if_neg c1]
+  by_cases c2 : (cmd == 68) = true
+  · rw [if_pos c2]; exact hD
+  rw [if_neg c2]
+  by_cases c3 : (cmd == 78) = true
+  · rw [if_pos c3]
+    by_cases a : (req?.isSome && decide (l.argv.length < 2)) = true
+    · rw [if_pos a]; exact hnil
+    · rw [if_neg a]; exact hN
+  rw [if_neg c3]
+  by_cases c4 : (cmd == 100) = true
+  · rw [if_pos c4]; exact hd
+  rw [if_neg c4]
+  by_cases c5 : (cmd == 80) = true
+  · rw [if_pos c5]
+    by_cases a : (req?.isSome && decide (l.argv.length < 2)) = true
+    · rw [if_pos a]; exact hnil
+    · rw [if_neg a]; exact hP
+  rw [if_neg c5]
+  by_cases c6 : (cmd == 85) = true
+  · rw [if_pos c6]
+    cases hq : req? with
+    | none => exact hU0 hq
+    | some r =>
+      dsimp only
+      by_cases a : l.argv.length < 3
+      · rw [if_pos a]; exact hU1
+      · rw [if_neg a]; exact hU2 r hq a
+  rw [if_neg c6]
+  by_cases c7 : (cmd == 117) = true
+  · rw [if_pos c7]; exact hu
+  rw [if_neg c7]
+  by_cases c8 : (cmd == 110) = true
+  · rw [if_pos c8]
+    by_cases a : (req?.isSome && decide (l.argv.length < 2)) = true
+    · rw [if_pos a]; exact hnil
+    · rw [if_neg a]; exact hn
+  rw [if_neg c8]
+  by_cases c9 : (cmd == 72) = true
+  · rw [if_pos c9]; exact hH
+  rw [if_neg c9]
+  by_cases c10 : (cmd == 84) = true
+  · rw [if_pos c10]; exact hT
+  rw [if_neg c10]
+  by_cases c11 : (cmd == 88) = true
+  · rw [if_pos c11]; exact hX true
+  rw [if_neg c11]
+  by_cases c12 : (cmd == 120) = true
+  · rw [if_pos c12]; exact hX false
+  rw [if_neg c12]
+  by_cases c13 : (cmd == 63) = true
+  · rw [if_pos c13]; exact hI
+  rw [if_neg c13]; exact hnil
+
+theorem dispatch_step (s : State) (h : StateOK s) (l : Line) (hargs : ∀ a ∈ l.argv, Clean a)
+    (hinit : ∀ a ∈ l.argv.dropLast, NoSp a) (hid : -2147483648 ≤ l.id ∧ l.id ≤ 2147483647)
+    (cmd : UInt8) (req? : Option Req) (hreq : ∀ r, req? = some r → r ∈ s.reqs) :
+    StepOK s (dispatch s l cmd req?) := by
+  have optArg : ∀ i, ∀ x, (if req?.isSome then some ((arg l i).getD []) else arg l i) = some x → Clean x := by
+    intro i x hx
+    split at hx
+    · simp only [Option.some.injEq] at hx; subst hx; exact (arg_clean hargs i).1
+    · exact (arg_clean hargs i).2 x hx
+  apply dispatch_cases s l cmd req? (StepOK s)
+  · exact StepOK.pure h _ OutOK.nil
+  · exact newClient_step s h l.id hid _ _
+  · exact dropReq_step s h req? hreq "D" (by decide)
+  · exact onReq_step s h req? hreq "N" (by decide) _ (optArg 1)
+  · exact onReq_step s h req? hreq "d" (by decide) Ev.noHostname trivial
+  · exact onReq_step s h req? hreq "P" (by decide) _ (optArg 1)
+  · intro _; exact garbage_step s h "U" (by decide)
+  · exact StepOK.pure h _ (OutOK.single (sendOpers_wf _ (clean_of_cleanB (by decide))))
+  · intro r hq h3
+    refine withReq_step s h r (hreq r hq) _ (fun c' hc' =>
+      reqEvent_good _ _ _ _ (ctx0_ok h (hreq r hq)) ?_ hc')
+    exact ⟨arg1_nosp hinit h3, (arg_clean hargs 1).1, (arg_clean hargs 2).1⟩
+  · exact onReq_step s h req? hreq "u" (by decide) _ (arg_clean hargs 1).2
+  · exact onReq_step s h req? hreq "n" (by decide) _ (optArg 1)
+  · exact onReq_step s h req? hreq "H" (by decide) Ev.hurry trivial
+  · exact dropReq_step s h req? hreq "T" (by decide)
+  · intro isX; exact onReply_step s h l hargs isX
+  · exact onInfo_step s h l
+
+/-- one complete input line -/
+theorem stepLine_step (s : State) (h : StateOK s) (raw : Bytes) (hraw : Clean raw) : StepOK s (stepLine s raw) := by
+  obtain ⟨ha, hi⟩ := tokenize_args raw hraw
+  have hid : -2147483648 ≤ (tokenize raw).id ∧ (tokenize raw).id ≤ 2147483647 := by
+    unfold tokenize; dsimp only; exact toInt32_range _
+  unfold stepLine
+  dsimp only
+  split
+  · exact StepOK.pure h _ OutOK.nil
+  · split
+    · split
+      · exact StepOK.pure h _ OutOK.nil
+      · apply dispatch_step s h _ ha hi hid
+        intro r hr; cases hr
+    · split
+      · exact StepOK.pure h _ OutOK.nil
+      · apply dispatch_step s h _ ha hi hid
+        intro r hr; exact (findReq_mem hr).1
+
+/-- the request's timer fires -/
+theorem stepTimeout_step (s : State) (h : StateOK s) (id : Int) :
+    ∀ s' out f, stepTimeout s id = .ok (s', out, f) → StateOK s' ∧ OutOK out ∧ s'.lim = s.lim := by
+  intro s' out f he
+  unfold stepTimeout at he
+  split at he
+  · rename_i r hf
+    split at he
+    · simp only [bind, Except.bind] at he
+      split at he
+      · cases he
+      · rename_i v hv
+        obtain ⟨s1, o1⟩ := v
+        simp only [pure, Except.pure, Except.ok.injEq, Prod.mk.injEq] at he
+        obtain ⟨rfl, rfl, _⟩ := he
+        have hr := (findReq_mem hf).1
+        exact withReq_step s h r hr _ (fun c' hc' => reqEvent_good _ _ _ Ev.timeout (ctx0_ok h hr) trivial hc') _ _ hv
+    · simp only [pure, Except.pure, Except.ok.injEq, Prod.mk.injEq] at he
+      obtain ⟨rfl, rfl, _⟩ := he
+      exact ⟨h, OutOK.nil, rfl⟩
+  · simp only [pure, Except.pure, Except.ok.injEq, Prod.mk.injEq] at he
+    obtain ⟨rfl, rfl, _⟩ := he
+    exact ⟨h, OutOK.nil, rfl⟩
+
 end Iauthd.Proto
